@@ -61,6 +61,24 @@ def sc_waiter(rng, cid, store):
     return dict(id=cid, conf=conf, steps=steps, scenario="collection-waiter")
 
 
+def sc_cache_timer(rng, cid, store):
+    """the directory store drops a repository from its cache when it was not asked for during a grace period, and collects it
+    first - from the cache's timer, inside the cache. A request that keeps dst for longer than that (its body arrives slowly)
+    makes this collection wait; a request to src in the meantime must still be served"""
+    conf = mkconf(store=store, withsubj=False, freq_ms=0, grace_ms=rng.choice([30, 40, 60]))
+    steps = base_steps()
+    m = manifest(rng.randrange(1000))
+    put = manifest_put("dst", "copy", m, ctype=MT_OCI_M)
+    other = timed(tag_list("src"), 300)
+    mids = [special("sleep", secs=0.25), dict(kind="async", impl=dict(op="async", par=[[other["impl"]]]), model="(skip)"), special("sleep", secs=0.9)]
+    sp = split(put, len(m) // 2, mids)
+    steps.append(sp)
+    steps.append(dict(kind="join", impl=dict(op="join", secs=2.0), model="(skip)", within_ms=600,
+                      must_complete="a request to another repository, with a 300 ms context, sent while the cache's timer collects dst"))
+    steps += [manifest_get("dst", "copy"), tag_list("src"), special("close")]
+    return dict(id=cid, conf=conf, steps=steps, scenario="cache-timer-collection")
+
+
 def sc_close_ticker(rng, cid, store):
     """Close while the collection ticker fires"""
     conf = mkconf(store=store, withsubj=False, freq_us=rng.choice([1, 20, 200, 1000]))
@@ -282,7 +300,7 @@ def run(ctx):
     cases = []
     for _ in range(reps):
         for store in ("mem", "dir"):
-            for f, n in ((sc_waiter, 4), (sc_close_ticker, 3), (sc_uploads, 4), (sc_mixed, 5), (sc_gc_cycle, 2), (sc_self_mount, 2), (sc_unknown_session, 4), (sc_close_queued, 3), (sc_cancelled, 3), (sc_referrers_during_collection, 3), (sc_timer_vs_last_session, 2)):
+            for f, n in ((sc_waiter, 4), (sc_close_ticker, 3), (sc_uploads, 4), (sc_mixed, 5), (sc_gc_cycle, 2), (sc_self_mount, 2), (sc_unknown_session, 4), (sc_close_queued, 3), (sc_cancelled, 3), (sc_referrers_during_collection, 3), (sc_timer_vs_last_session, 2), (sc_cache_timer, 2)):
                 for _ in range(n):
                     if f is sc_gc_cycle and store != "dir":
                         continue
@@ -312,12 +330,20 @@ def run(ctx):
                     hangs += [("step %d mid %d%s" % (k, j, w), t) for w, t in find_hangs(m)]
             if r.get("panic"):
                 ctx.violation("%s: handler panicked: %s" % (c["scenario"], r["panic"]), dict(case=replayable(c), stack=r.get("err")), "C12:panic")
+            if st.get("within_ms"):
+                for m, mr in [(st, r)]:
+                        jr = ((mr.get("par") or [[]])[0] or [{}])[0]
+                        if (jr.get("ms") or 0) > m["within_ms"]:
+                            ctx.violation("%s (%s store): %s was answered (%s) after %d ms: it waited inside the repository cache, whose mutex the timer keeps while its collection of dst waits for the request that holds dst, and that wait does not look at the context"
+                                          % (c["scenario"], c["conf"]["store"], m["must_complete"], jr.get("status"), jr.get("ms")), dict(case=replayable(c), latency_ms=jr.get("ms")),
+                                          "C12:cache-timer-collection-blocks-every-repository")
             if st.get("kind") == "split":
                 # a request to another repository must not be held up by the waiters of this one
                 for j, (m, mr) in enumerate(zip(st["mids"], (r.get("par") or [[]])[0])):
                     if m.get("must_complete") and m.get("kind") == "tags" and (mr.get("ms") or 0) > 350:
                         ctx.violation("%s (%s store): %s took %d ms: it was blocked behind the requests waiting for the collection of the other repository"
-                                      % (c["scenario"], c["conf"]["store"], m["must_complete"], mr.get("ms")), dict(case=replayable(c), latency_ms=mr.get("ms")), "C12:blocked-other-repo")
+                                      % (c["scenario"], c["conf"]["store"], m["must_complete"], mr.get("ms")), dict(case=replayable(c), latency_ms=mr.get("ms")),
+                                      "C12:blocked-other-repo")
         if io.get("fatal") and not hangs:
             hangs.append(("case", io["fatal"]))
         if hangs:
